@@ -60,7 +60,7 @@ const READERS: &[(&str, &str, bool)] = &[
 /// A scenario program: definitions of a few scoped names on several kinds of nodes (so that
 /// identifiers have several defining ancestors), readers that reach identifiers through many
 /// different query paths, list elements and stored links.
-fn scenario(t: &mut Tape, strict_only: bool) -> (GProg, std::collections::BTreeSet<&'static str>) {
+pub fn scenario(t: &mut Tape, strict_only: bool) -> (GProg, std::collections::BTreeSet<&'static str>) {
     use crate::dsl::*;
     let mut ids = Ids::default();
     let mut features = std::collections::BTreeSet::new();
@@ -193,7 +193,7 @@ pub fn case(tape: &[u32]) -> CaseOutcome {
     let mut program = if use_scenario {
         let (prog, features) = scenario(&mut t, strict_only);
         let printed = crate::dsl::print_canonical(&prog);
-        let mut gen = crate::gen::Generated { prog, globals: Default::default(), features: Default::default(), fault: None };
+        let mut gen = crate::gen::Generated { prog, globals: Default::default(), features: Default::default(), fault: None, fault_id: None, fault_pair: None };
         gen.features = features;
         Program { gen, printed }
     } else {
